@@ -210,3 +210,37 @@ def flows_from(func, var, depth=4):
         work = nxt
         depth -= 1
     return exprs
+
+
+# -- regions ------------------------------------------------------------------
+
+
+def region(cfg, kind, astnode):
+    """CFG nodes built while inside the construct (kind, astnode) — e.g. ('except', handler) or ('with', item)."""
+    return [n for n in cfg.nodes if any(k == kind and a is astnode for (k, a) in n.ctx)]
+
+
+def escapes_region(cfg, start, reg, is_target, *, exc='*', weak=False, avoid_edge=None, exits=('exit', 'raise')):
+    """Path from *start* leaving the region (or the function) without passing a target node, or None."""
+    regset = set(reg)
+    return Q.escapes(cfg, [start], is_target, exits=exits, exc=exc, weak=weak, avoid_edge=avoid_edge,
+                     extra_exit=lambda n: n not in regset and n.kind not in ('exit', 'raise'))
+
+
+def except_nodes(cfg):
+    return [n for n in cfg.nodes if n.kind == 'except']
+
+
+def is_catch_all(hnode):
+    from .cfg import handler_names
+    names = handler_names(hnode.ast)
+    return names is None or 'BaseException' in names
+
+
+def enclosing_try_handlers(cfg, node):
+    """except-nodes of the innermost try whose *body* contains node."""
+    tries = [a for (k, a) in node.ctx if k == 'try']
+    if not tries:
+        return []
+    t = tries[-1]
+    return [h for h in except_nodes(cfg) if h.ast in t.handlers]
